@@ -581,7 +581,7 @@ class ComplexBinghamTrainer:
             covariance = np.einsum(
                 "...n,...nd,...nD->...dD", saliency, y, y.conj()
             )
-            denominator = np.einsum("...n->...", saliency)[..., None, None]
+            denominator = np.sum(saliency, axis=-1)[..., None, None]
 
         covariance /= denominator
         covariance = force_hermitian(covariance)
